@@ -10,7 +10,7 @@ Op language (one case = one array, any number of *rounds*):
     view <sc> <Iv>                           the SlidingWindowMetric used by `viewsum` (default: 1 × I)
     thread <tid> <clock-ms> <op> [; <op>]…   declares thread <tid> (0,1,2,… in order) of the next round; <clock-ms> is the
                                              clock reading at which it is started (non-decreasing); ops:
-                                             `add <ev> <amt>` | `conc <c>` | `count <ev>` | `viewsum <ev>`
+                                             `add <ev> <amt>` | `conc <c>` | `count <ev>` | `values <ev>` | `viewsum <ev>`
     sched <tid | tick:<ms>>…                 runs the round: initial advance of every thread (in order, each at its clock),
                                              the schedule, round-robin drain  => observation
 
@@ -31,6 +31,9 @@ def parseOp? : List String → Option OpSpec
   | ["add", ev, amt] => do some (.add (← evIdx? ev) (← amt.toNat?))
   | ["conc", c] => do some (.conc (← c.toNat?))
   | ["count", ev] => do some (.count (← evIdx? ev))
+  -- `values <ev>` = `BucketLeapArray.Values(now)` followed by the caller's own per-bucket `Get(ev)`: the same refresh, scan
+  -- and loads at the same yield points as `Count` — the same thread program of the model
+  | ["values", ev] => do some (.count (← evIdx? ev))
   | ["viewsum", ev] => do some (.viewsum (← evIdx? ev))
   | _ => none
 
@@ -51,6 +54,7 @@ structure St where
   clock : Nat := 0
   threads : Array (Nat × List OpSpec) := #[]
   -- oracle side
+  dead : Bool := false                                 -- oracle side: an earlier round of the case did not complete
   hist : List (Nat × Nat × Nat × Bool × Bool) := []      -- completed adds: (now, ev, amt, sure, wild)
 
 /-! ## model side -/
@@ -254,6 +258,7 @@ def step (oracle : Bool) (s : St) (ts : List String) (line : String) : St × Opt
           match resPart line with
           | none => ({ s with threads := #[] }, some "?")
           | some r =>
+            if s.dead then ({ s with threads := #[] }, some "?") else
             let fs := toks r
             match (field? fs "res").bind parseRes?, field? fs "pts", (field? fs "final").bind parseFinal?,
                   (field? fs "clock").bind (·.toNat?) with
@@ -263,7 +268,9 @@ def step (oracle : Bool) (s : St) (ts : List String) (line : String) : St × Opt
             | _, _, _, _ =>
               -- the scheduler gave up: a thread neither finished nor parked (step bound / watchdog) — "every recorder
               -- and reader terminates" fails on this schedule
-              if r.startsWith "sched-error" then ({ s with threads := #[] }, some ("bad not-terminating: " ++ r))
+              if r.startsWith "sched-error" then ({ s with threads := #[], dead := true }, some ("bad not-terminating: " ++ r))
+              -- a blocking lock around yield points / a round skipped after one: the harness cannot replay it, no claim
+              else if r.startsWith "sched-blocked" || r.startsWith "sched-skipped" then ({ s with threads := #[], dead := true }, some "?")
               else ({ s with threads := #[] }, some ("bad unparsable " ++ r))
         else
           let r := runRound s.sh s.clock s.threads es
